@@ -68,7 +68,7 @@ impl Property for C11 {
         "C11"
     }
     fn rule(&self) -> String {
-        "Cases: (a) native integer x of each of six types -> each of 19 zoo types, by value and by reference; (b) slices of 0..5 (quick)/0..12 (thorough) integers of each type -> each zoo type; (c) vector of any type/length/provenance -> each native type, by reference and by value; (d) Bit<->bool/uN. Enumerated: all u8 and u16 values exhaustively and the integer lattice for wider types x 19 types x 2 forms; every vector length 0..=min(C,320) with three value classes plus values whose significant bits are w-1,w,w+1 for each native width w, x 6 native types x 2 forms; slices of every count whose total straddles the capacity. Oracle: native integer arithmetic: Ok(value x, length w or min(w,C)) or Err(NotEnoughCapacity) exactly when significant bits exceed the capacity/width; never a panic. Non-trivial: the value or length straddles a capacity or width boundary (within 1), or the vector is empty, or longer than the target width with a small value. Distinct by hash of the case.".into()
+        "Cases: (a) native integer x of each of six types -> each of 20 zoo types, by value and by reference; (b) slices of 0..5 (quick)/0..12 (thorough) integers of each type -> each zoo type; (c) vector of any type/length/provenance -> each native type, by reference and by value; (d) Bit<->bool/uN. Enumerated: all u8 and u16 values exhaustively and the integer lattice for wider types x 20 types x 2 forms; every vector length 0..=min(C,320) with three value classes plus values whose significant bits are w-1,w,w+1 for each native width w, x 6 native types x 2 forms; slices of every count whose total straddles the capacity. Oracle: native integer arithmetic: Ok(value x, length w or min(w,C)) or Err(NotEnoughCapacity) exactly when significant bits exceed the capacity/width; never a panic. Non-trivial: the value or length straddles a capacity or width boundary (within 1), or the vector is empty, or longer than the target width with a small value. Distinct by hash of the case.".into()
     }
     fn random_cases(&self, tier: Tier) -> u64 {
         tier.pick(300000, 9600000)
@@ -96,7 +96,7 @@ impl Property for C11 {
     }
     fn exhaustive_subspaces(&self, _tier: Tier) -> Vec<String> {
         vec![
-            "every u8 and every u16 value -> each of the 19 zoo types, by value and by reference".into(),
+            "every u8 and every u16 value -> each of the 20 zoo types, by value and by reference".into(),
             "every u8 and u16 value through Bit::from / uN::from(Bit)".into(),
         ]
     }
